@@ -220,6 +220,49 @@ class Conv:
         c('async_free 0')
         return out + (nconn,)
 
+    def run_refused_queue(self, how, nq):
+        """nq requests are waiting when the connection attempt is refused (or never completes): every one of them ends with a network error, each
+        exactly once; when the server is reachable again afterwards nothing of them is written any more"""
+        s = self.s
+        c = s.cmd
+        now = 1700000000
+        c('clock %d' % now)
+        c('async_new 0 0 sign')
+        c('async_endpoint 0 set ksi+tcp://agg.example:3332 anon anon')
+        c('async_opt 0 cache_size %d' % (nq + 1))
+        c('async_opt 0 max_request_count 1000')
+        c('async_opt 0 snd_timeout 3000')
+        c('async_opt 0 rcv_timeout 3000')
+        c('async_opt 0 con_timeout 5')
+        c('net_ep agg.example 3332 connect=%d send=- recv=-' % (2 if how == 'refused' else 4))
+        nconn0 = len(s.tcp_order)
+        for i in range(nq):
+            q = c('async_add 0 0 sign %s 0 w%d' % (R.H(1, b'refq/%d/' % i + self.label.encode()).hex(), i))
+            if q.rc != 0:
+                c('async_free 0')
+                return dict(error='add refused rc=%#x' % q.rc)
+        got = {}
+        for k in range(12 + nq):
+            now += 1
+            c('clock %d' % now)
+            q = c('async_run 0')
+            if q.get('handle') == '1' and (q.get('tag') or '').startswith('w'):
+                got.setdefault(q['tag'], []).append((int(q['state']), int(q.get('herr', 0))))
+            if len(got) == nq:
+                break
+        # the server is back: whatever is still queued inside the client would now be written
+        c('net_ep agg.example 3332 connect=0 send=- recv=-')
+        n1 = len(s.tcp_order)
+        for k in range(4):
+            now += 1
+            c('clock %d' % now)
+            q = c('async_run 0')
+            if q.get('handle') == '1' and (q.get('tag') or '').startswith('w'):
+                got.setdefault(q['tag'], []).append((int(q['state']), int(q.get('herr', 0))))
+        late = sum(len(i['sent']) for i in s.tcp_order[n1:])
+        c('async_free 0')
+        return dict(got=got, late_bytes=late, attempts=n1 - nconn0)
+
     def run_blocked_both_ways(self, k, idle_first):
         """an ESTABLISHED connection on which, for longer than the connect timeout, poll() reports neither readable nor writable (peer not
         reading, nothing to read): a would-block that must postpone the work and fail nothing; when the peer reads again every request goes
@@ -856,6 +899,18 @@ def async_part(job, r):
                 r.count('reconnect_%s_%s' % (how, res[0]))
                 if res[0] != 'returned' or res[1] != 5 or res[2] not in NET_ERRS:
                     cv.viol('reconnect-%s:request-not-failed' % how, 'after an established connection was closed by the peer the next connection attempt is %s: the waiting request should end with a network error within 12 runs (connect timeout 5 s, send timeout 3000 s), got %s' % (how, res), 'how=%s' % how)
+            for how in ('refused', 'hanging'):
+                nq = rng.choice([2, 3, 4, 7])
+                res = cv.run_refused_queue(how, nq)
+                if 'error' in res:
+                    cv.viol('refused-queue:service-error', res['error'], '')
+                    continue
+                r.observe(('refused-queue', how, nq, tuple(sorted((k, tuple(v)) for k, v in res['got'].items()))[:3], res['late_bytes'] > 0))
+                r.count('refused_queue_scenarios')
+                bad = [t for t in ('w%d' % i for i in range(nq)) if res['got'].get(t) is None or len(res['got'][t]) != 1 or res['got'][t][0][0] != 5 or res['got'][t][0][1] not in NET_ERRS]
+                if bad or res['late_bytes']:
+                    cv.viol('refused-queue:%s:%s' % (how, 'request-written-after-the-failure' if res['late_bytes'] else 'request-not-failed'),
+                            '%d requests were waiting when the connection attempt was %s: each should end once with a network error; got %s; %d octets were written after the server became reachable again' % (nq, how, res['got'], res['late_bytes']), 'how=%s nq=%d' % (how, nq))
         # faults at byte offsets of the server stream
         offs = range(0, L + 1) if L <= 400 else sorted(set([0, 1, 2, 3, 4, 5, L - 1, L] + rng.sample(range(L), 25)))
         for off in offs:
@@ -1011,4 +1066,4 @@ def run(ctx):
     if not ctx.violations and not ctx.known_printed:
         ctx.require(c.get('blocked_both_ways_completed', 0) >= 50 and c.get('pushed_config_streams', 0) >= 50 and c.get('config_request_overtaken_later_completed', 0) >= 20, 'blocked established connections, pushed configurations and overtaken configuration requests observed')
         ctx.require(c.get('later_request_after_cut_resp', 0) >= 200, 'requests completed on a fresh connection after a cut')
-        ctx.require(c.get('chunking_variants', 0) >= 1000 and c.get('fault_positions', 0) >= 500 and c.get('blocking_fault_positions', 0) >= 500 and c.get('blocking_short_write_variants', 0) >= 100, 'chunkings and fault positions explored')
+        ctx.require(c.get('chunking_variants', 0) >= 1000 and c.get('fault_positions', 0) >= 500 and c.get('blocking_fault_positions', 0) >= 500 and c.get('blocking_short_write_variants', 0) >= 100 and c.get('refused_queue_scenarios', 0) >= 10, 'chunkings and fault positions explored')
